@@ -57,7 +57,7 @@ func (r *NgReader) readHWAddr(nr *NgNameRecord, length int) error {
 	if _, err := r.readBytes(r.buf[:length]); err != nil {
 		return fmt.Errorf("could not read EUI address: %v", err)
 	}
-	nr.Addr = newHWAddress(r.buf[:])
+	nr.Addr = newHWAddress(r.buf[:length])
 	return nil
 }
 
